@@ -1183,11 +1183,32 @@ class Context:
             return value
         if isinstance(value, str):
             return value
-        if isinstance(value, JSArray):
-            return [self._to_python(elem) for elem in value._elements]
-        if isinstance(value, JSObject):
-            return {k: self._to_python(v) for k, v in value._properties.items()}
-        return value
+        if not isinstance(value, (JSArray, JSObject)):
+            return value
+        # Containers are converted iteratively with a memo table, so that shared,
+        # cyclic (o.self = o, Object.prototype.constructor.prototype) and very deep
+        # structures convert without exhausting the host stack.
+        memo: Dict[int, Any] = {}
+        todo = []
+
+        def convert(v: JSValue) -> Any:
+            if not isinstance(v, (JSArray, JSObject)):
+                return self._to_python(v)
+            if id(v) not in memo:
+                memo[id(v)] = [] if isinstance(v, JSArray) else {}
+                todo.append(v)
+            return memo[id(v)]
+
+        result = convert(value)
+        while todo:
+            current = todo.pop()
+            target = memo[id(current)]
+            if isinstance(current, JSArray):
+                target.extend([convert(elem) for elem in current._elements])
+            else:
+                for k, v in list(current._properties.items()):
+                    target[k] = convert(v)
+        return result
 
     def _to_js(self, value: Any) -> JSValue:
         """Convert a Python value to JavaScript."""
